@@ -25,7 +25,7 @@ ToSetM(s) == {s[i] : i \in 1..Len(s)}
    d.rows[k] = the row-valued fields of node k-1 of the wire document, every type translated on its own to a term and projected to
        [k |-> "ty", s]  (any other term, printed)   [k |-> "adt", rows]   [k |-> "ctrl", row]   [k |-> "fn", ins, outs]
    in a record of one shape [a, b, c, rows] (unused fields empty):
-       DFG/CFG/Extension/Call/CallIndirect/FuncDefn/FuncDecl  a = inputs, b = outputs (of signature / instantiation / body)
+       DFG/CFG/Extension/Call/LoadFunction/CallIndirect/FuncDefn/FuncDecl  a = inputs, b = outputs (of signature / instantiation / body)
        LoadConstant b = <<datatype>>       Conditional rows = sum_rows, a = other_inputs, b = outputs
        TailLoop a = just_inputs, b = just_outputs, c = rest      DataflowBlock a = inputs, rows = sum_rows, c = other_outputs
        Tag rows = variants      Input/Output a = types      ExitBlock a = cfg_outputs
@@ -34,11 +34,12 @@ ToSetM(s) == {s[i] : i \in 1..Len(s)}
 Fn(ins, outs) == [k |-> "fn", ins |-> ins, outs |-> outs]
 Adt(rows)     == [k |-> "adt", rows |-> rows]
 Ctrl(row)     == [k |-> "ctrl", row |-> row]
-HasSigLaw(op) == op.op \in {"DFG", "CFG", "Extension", "Call", "CallIndirect", "LoadConstant", "Conditional", "TailLoop", "DataflowBlock", "Tag"}
+HasSigLaw(op) == op.op \in {"DFG", "CFG", "Extension", "Call", "CallIndirect", "LoadConstant", "LoadFunction", "Conditional", "TailLoop", "DataflowBlock", "Tag"}
 ExpNodeSig(op, r) ==
   CASE op.op \in {"DFG", "CFG", "Extension", "Call"} -> Fn(r.a, r.b)
     [] op.op = "CallIndirect"  -> Fn(<<Fn(r.a, r.b)>> \o r.a, r.b)              \* the function value, then its arguments
     [] op.op = "LoadConstant"  -> Fn(<<>>, r.b)
+    [] op.op = "LoadFunction"  -> Fn(<<>>, <<Fn(r.a, r.b)>>)                      \* no value inputs; one output: the function VALUE
     [] op.op = "Conditional"   -> Fn(<<Adt(r.rows)>> \o r.a, r.b)                \* the branching sum, then the other inputs
     [] op.op = "TailLoop"      -> Fn(r.a \o r.c, r.b \o r.c)
     [] op.op = "DataflowBlock" -> Fn(<<Ctrl(r.a)>>, [j \in 1..Len(r.rows) |-> Ctrl(r.rows[j] \o r.c)])   \* EVERY successor gets the other outputs
